@@ -301,6 +301,17 @@ fn main() {
             idl::start_watchdog(out.clone());
             let mut stats = idl::Stats::new();
             ev_reset("idl");
+            // A process that parses descriptions has usually seen texts it had to reject before: a few dozen of them
+            // come first here (unlogged; a parser keeps no state between texts, so they change nothing).
+            for k in 0..48 {
+                let bad = [
+                    "interface a.b\nmethod M(x: []uint8) -> ()\n",
+                    "interface a.b\ntype T (m: [string][]double, n: ?any)\n",
+                    "interface a.b\nmethod M(x: [][][][]?[][]nope_) -> (y: (a: (b: (c: []int64))))\n",
+                    "interface a.b\nerror E (f: ?[string](x: ???))\n",
+                ][k % 4];
+                let _ = std::panic::catch_unwind(|| zlink_core::idl::Interface::try_from(bad).is_ok());
+            }
             if let Some(p) = arg_val(&args, "--replay") {
                 for v in read_lines(&p) {
                     idl::replay(v.get("case").unwrap_or(&v), &mut stats);
